@@ -30,11 +30,14 @@ import common
 
 LEVEL = 'proof'
 LEANCHECKER = True
-RULE = ("a case is (rows, cols, factor, header kind in {cdelt, cd, mixed, both}, input in {hdu, file}, image pattern "
+RULE = ("a case is (rows, cols, factor, header kind in {cdelt, cd, mixed, both, cdrot (full rotated CD matrix), pc, crota}, input in {hdu, file}, image pattern "
         "in {random, affine, nodal}); the real compress and expand are run on it; non-trivial = factor >= 2 (some "
         "pixel is interpolated and the residual bookkeeping is exercised); distinct by (rows, cols, factor, header "
         "kind, input); malformed-stream cases are counted separately in the histogram and are never non-trivial")
 ASSUMPTIONS = [
+    "header cards other than NAXISi, CRPIXi, CDELTi/CDi_i and BN_* are opaque (keyword, raw value) pairs in the model; "
+    "the all-cards comparison (round trip: Spec; intermediate compressed header: correspondence) runs on every card "
+    "astropy reports, with rotated CD matrices, PC+CDELT and CROTA2 headers among the generated kinds",
     "scipy.interpolate.RegularGridInterpolator(method='linear') is what Model.C15.interp2 says: it raises unless the "
     "grid is strictly ascending and contains every query point, picks the cell [g_i, g_{i+1}] with the largest "
     "i <= m-2 such that g_i <= x, and returns the bilinear combination of the four corner values (sampled by the "
@@ -108,6 +111,24 @@ def make_hdulist(img, kind, extra=None):
     if kind == 'mixed':
         hdu.header['CD1_1'] = SCALE[0]
         hdu.header['CDELT2'] = SCALE[1]
+    if kind == 'cdrot':        # rotated / skewed image: full CD matrix, no CDELT
+        hdu.header['CD1_1'] = -0.0121
+        hdu.header['CD1_2'] = 0.0043
+        hdu.header['CD2_1'] = 0.0039
+        hdu.header['CD2_2'] = 0.0117
+    if kind == 'pc':           # PC matrix + CDELT
+        hdu.header['CDELT1'] = SCALE[0]
+        hdu.header['CDELT2'] = SCALE[1]
+        hdu.header['PC1_1'] = 0.9396926207859084
+        hdu.header['PC1_2'] = -0.3420201433256687
+        hdu.header['PC2_1'] = 0.3420201433256687
+        hdu.header['PC2_2'] = 0.9396926207859084
+    if kind == 'crota':        # AIPS convention
+        hdu.header['CDELT1'] = SCALE[0]
+        hdu.header['CDELT2'] = SCALE[1]
+        hdu.header['CROTA2'] = 23.5
+        hdu.header['BUNIT'] = 'Jy/beam'
+        hdu.header['BMAJ'] = 0.05
     if kind == 'no1':
         hdu.header['CDELT2'] = SCALE[1]
     if kind == 'no2':
@@ -115,6 +136,32 @@ def make_hdulist(img, kind, extra=None):
     for k, v in (extra or {}).items():
         hdu.header[k] = v
     return fits.HDUList([hdu])
+
+
+TOUCHED = {'NAXIS1', 'NAXIS2', 'CRPIX1', 'CRPIX2', 'CDELT1', 'CD1_1', 'CDELT2', 'CD2_2'}
+
+
+def enc(v):
+    """a card value as one token, bit-exact for floats"""
+    if isinstance(v, (bool, np.bool_)):
+        return 'bT' if v else 'bF'
+    if isinstance(v, (int, np.integer)):
+        return 'i%d' % int(v)
+    if isinstance(v, (float, np.floating)):
+        return 'f' + common.f2h(v)
+    return 's' + str(v).encode('utf8').hex()
+
+
+def other_cards(h):
+    """every card that compress/expand are not supposed to touch: {keyword: encoded value}.  HISTORY (both
+    functions append to it), COMMENT/blank and BN_* are excluded."""
+    out = {}
+    for card in h.cards:
+        k = card.keyword
+        if k in TOUCHED or k in ('HISTORY', 'COMMENT', '') or k.startswith('BN_') or ' ' in k:
+            continue
+        out[k] = enc(card.value)
+    return out
 
 
 def hdr_tokens(h, shape=None):
@@ -126,8 +173,10 @@ def hdr_tokens(h, shape=None):
         bn = 'bn ' + ' '.join(str(int(h[k])) for k in bnkeys)
     else:
         bn = 'nobn'
+    oc = other_cards(h)
+    other = f"other {len(oc)}" + ''.join(f" {k} {v}" for k, v in oc.items())
     return (f"{int(h['NAXIS1'])} {int(h['NAXIS2'])} {common.f2h(h['CRPIX1'])} {common.f2h(h['CRPIX2'])} "
-            f"{opt('CDELT1')} {opt('CD1_1')} {opt('CDELT2')} {opt('CD2_2')} {bn}")
+            f"{opt('CDELT1')} {opt('CD1_1')} {opt('CDELT2')} {opt('CD2_2')} {bn} {other}")
 
 
 def px_tokens(data):
@@ -158,6 +207,10 @@ def parse_result(line):
         k += 6
     else:
         k += 1
+    assert w[k] == 'other', line[:200]
+    n = int(w[k + 1])
+    hdr['__other__'] = {w[k + 2 + 2 * i]: w[k + 3 + 2 * i] for i in range(n)}
+    k += 2 + 2 * n
     data = np.array([common.h2f(t) for t in w[k:]], dtype=np.float64).reshape(rows, cols)
     return ('ok', rows, cols, hdr, data)
 
@@ -167,7 +220,17 @@ HKEYS = ['NAXIS1', 'NAXIS2', 'CRPIX1', 'CRPIX2', 'CDELT1', 'CD1_1', 'CDELT2', 'C
 
 
 def hdr_view(h):
-    return {k: (float(h[k]) if not k.startswith(('NAXIS', 'BN_')) else int(h[k])) for k in HKEYS if k in h}
+    v = {k: (float(h[k]) if not k.startswith(('NAXIS', 'BN_')) else int(h[k])) for k in HKEYS if k in h}
+    v['__other__'] = other_cards(h)
+    return v
+
+
+def dec(tok):
+    if tok[0] == 'f':
+        return repr(common.h2f(tok[1:]))
+    if tok[0] == 's':
+        return repr(bytes.fromhex(tok[1:]).decode('utf8'))
+    return tok[1:]
 
 
 def hdr_diff(real, model, rel=1e-12):
@@ -182,6 +245,14 @@ def hdr_diff(real, model, rel=1e-12):
                     return f"{k}: implementation {a}, model {b}"
             elif not common.close(float(a), float(b), rel=rel):
                 return f"{k}: implementation {a!r}, model {b!r}"
+    # every other card: same keywords, bit-identical values
+    ro, mo = real.get('__other__'), model.get('__other__')
+    if ro is not None and mo is not None:
+        for k in list(ro) + [k for k in mo if k not in ro]:
+            if (k in ro) != (k in mo):
+                return f"{k}: implementation {'has' if k in ro else 'lacks'} it, model {'has' if k in mo else 'lacks'} it"
+            if ro[k] != mo[k]:
+                return f"{k}: implementation {dec(ro[k])}, model {dec(mo[k])}"
     return None
 
 
@@ -385,7 +456,9 @@ def judge(ctx, case, o, ans):
         ctx.fail('spec', dict(case, pixel=[bad[1], bad[2]]), bad[3], sig(bad[0], case))
     kd = hdr_diff({k: v for k, v in hdr_view(o.ehdr).items()}, o.hdr0, rel=1e-9)
     if kd:
-        ctx.fail('spec', case, f"keyword not restored after compress+expand: {kd} (original {o.hdr0})",
+        ctx.fail('spec', case, f"keyword not restored after compress+expand: {kd.replace('model', 'original')} "
+                 f"(every card other than HISTORY/BN_* must come back; CRPIX and the scale keywords to 1e-9, all others "
+                 f"bit-identical)",
                  sig('keywords', case, keyword=kd.split(':')[0]))
     from AegeanTools import fits_tools
     if fits_tools.is_compressed(o.ehdr) or any(k.startswith('BN_') for k in o.ehdr):
@@ -706,13 +779,14 @@ def sr6_cases(ctx, cases):
 # case sets
 # ---------------------------------------------------------------------------------------------
 
-KINDS = ['cdelt', 'cd', 'mixed', 'both']
+KINDS = ['cdelt', 'cd', 'mixed', 'both', 'cdrot', 'cdrot', 'pc', 'crota']
 CORPUS = [
     # (rows, cols, f, kind, io, pattern)
     (2, 2, 1, 'cdelt', 'hdu', 'random'), (2, 2, 64, 'cd', 'file', 'random'), (2, 3, 2, 'cdelt', 'hdu', 'random'),
     (7, 5, 3, 'cdelt', 'file', 'nodal'), (9, 9, 4, 'cd', 'hdu', 'nodal'), (12, 8, 4, 'cdelt', 'hdu', 'affine'),
     (13, 40, 13, 'mixed', 'file', 'affine'), (40, 40, 39, 'cdelt', 'hdu', 'random'), (40, 39, 41, 'cd', 'hdu', 'random'),
-    (5, 17, 16, 'both', 'file', 'nodal'), (33, 2, 8, 'cdelt', 'file', 'nodal'), (17, 17, 8, 'cd', 'hdu', 'nodal'),
+    (5, 17, 16, 'both', 'file', 'nodal'), (9, 7, 3, 'cdrot', 'hdu', 'nodal'), (8, 11, 2, 'cdrot', 'file', 'random'),
+    (10, 6, 4, 'pc', 'hdu', 'affine'), (6, 9, 5, 'crota', 'file', 'random'), (33, 2, 8, 'cdelt', 'file', 'nodal'), (17, 17, 8, 'cd', 'hdu', 'nodal'),
 ]
 
 
@@ -743,7 +817,7 @@ def case_set(ctx):
     for rows, cols, f in itertools.product(small, small, fs):
         if ctx.quick and (rows + cols + f + ctx.seed) % 2:
             continue
-        cases.append(mk(rows, cols, f, KINDS[(rows + cols + f) % 2], 'hdu', ['random', 'nodal'][(rows * cols + f) % 2],
+        cases.append(mk(rows, cols, f, ['cdelt', 'cd', 'cdrot'][(rows + cols + f) % 3], 'hdu', ['random', 'nodal'][(rows * cols + f) % 2],
                         rows * 100 + cols))
     n = 220 if ctx.quick else 2200
     for k in range(n):
